@@ -66,10 +66,13 @@ func (m *mySQLUndoInsertExecutor) ExecuteOn(ctx context.Context, dbType types.DB
 	for _, row := range afterImage.Rows {
 		pkValueList := make([]interface{}, 0)
 
-		for _, col := range row.Columns {
-			if col.KeyType == types.PrimaryKey.Number() {
-				pkValueList = append(pkValueList, col.Value)
-			}
+		// the values in the order the WHERE clause names the key columns (generateDeleteSql)
+		pkColumns, err := GetOrderedPkList(afterImage, row, dbType)
+		if err != nil {
+			return err
+		}
+		for _, col := range pkColumns {
+			pkValueList = append(pkValueList, col.Value)
 		}
 
 		if _, err = stmt.Exec(pkValueList...); err != nil {
